@@ -182,7 +182,13 @@ def _truth_alternatives(f, fg, name, polarity, depth=0):
     (assigned once per lowered `return`, in mutually exclusive branches), one alternative per
     assignment = the guards of the assignment plus the truth of the assigned expression.
     None when the local is not of these kinds."""
-    ds = [d for d in local_def(f.node, name) if isinstance(d, ast.Assign)]
+    # raw definitions (no see-through): the guards of every copying assignment matter here
+    ds = [n_ for n_ in ast.walk(f.node) if isinstance(n_, ast.Assign) and any(
+        isinstance(t_, ast.Name) and t_.id == name for t_ in n_.targets)]
+    if name.startswith("__ret__") and len(ds) > 1:
+        first = min(ds, key=lambda d_: d_._ord)
+        if isinstance(first.value, ast.Constant) and first.value.value is None:
+            ds = [d_ for d_ in ds if d_ is not first]
     inl = all(True for _ in ds) and any(
         isinstance(t, ast.Name) and t.id.startswith("__ret__")
         for d in ds for t in d.targets)
@@ -210,6 +216,51 @@ def _truth_alternatives(f, fg, name, polarity, depth=0):
     return alts
 
 
+def _none_alternatives(f, fg, name, want_none):
+    """Alternative guard lists under which a result temporary of the inlining pass (or a local
+    that copies one) is None / is not None: one alternative per assignment of the wanted
+    kind, consisting of the guards of that assignment."""
+    def raw(nm):
+        return [n for n in ast.walk(f.node) if isinstance(n, ast.Assign) and any(
+            isinstance(t, ast.Name) and t.id == nm for t in n.targets)]
+    ds = raw(name)
+    for _ in range(3):
+        if len(ds) == 1 and isinstance(ds[0].value, ast.Name) and not name.startswith("__ret__"):
+            name = ds[0].value.id
+            ds = raw(name)
+    if not ds or not name.startswith("__ret__"):
+        return None
+    # the unconditional None initialisation of the temporary is not a returned value
+    if len(ds) > 1:
+        first = min(ds, key=lambda d: d._ord)
+        if isinstance(first.value, ast.Constant) and first.value.value is None and not fg.atoms(first):
+            ds = [d for d in ds if d is not first]
+    alts = []
+    for d in ds:
+        is_none = isinstance(d.value, ast.Constant) and d.value.value is None
+        if is_none == want_none:
+            alts.append(list(fg.atoms(d)))
+    return alts or None
+
+
+_COMPLEMENT = {"is": "isnot", "isnot": "is", "truthy": "falsy", "falsy": "truthy", "in": "notin",
+               "notin": "in", "==": "!=", "!=": "==", "<": ">=", ">=": "<", ">": "<=", "<=": ">"}
+
+
+def _contradictory(alt):
+    """The conjunction contains an atom and its complement: an infeasible combination."""
+    seen = set()
+    for a in alt:
+        if a[0] in _COMPLEMENT and len(a) > 2:
+            try:
+                if (_COMPLEMENT[a[0]], a[1], a[2]) in seen:
+                    return True
+                seen.add((a[0], a[1], a[2]))
+            except TypeError:
+                continue
+    return False
+
+
 def expand_alternatives(f, fg, atoms):
     """The guard list `atoms` as a list of alternative guard lists in which truthy / falsy
     atoms on boolean locals (see _truth_alternatives) are replaced by what they stand for."""
@@ -218,12 +269,16 @@ def expand_alternatives(f, fg, atoms):
         sub = None
         if a[0] in ("truthy", "falsy") and isinstance(a[1], str) and a[1].isidentifier():
             sub = _truth_alternatives(f, fg, a[1], a[0] == "truthy")
+        if sub is None and a[0] in ("is", "isnot") and len(a) > 2 and a[2] is None \
+                and isinstance(a[1], str) and a[1].isidentifier():
+            sub = _none_alternatives(f, fg, a[1], a[0] == "is")
         if sub is None and a[0] == "or":
             sub = [list(alt) for alt in a[1]]
         if sub is None:
             alts = [x + [a] for x in alts]
         else:
             alts = [x + list(s_) for x in alts for s_ in sub][:128]
+    alts = [alt for alt in alts if not _contradictory(alt)] or alts[:1]
     # nested alternatives introduced by the substitution
     if any(a[0] == "or" for alt in alts for a in alt) and len(alts) < 128:
         out = []
@@ -529,8 +584,43 @@ def rule_F5(ctx):
     return res
 
 
-def _on_error_path(f, fg, node):
+def error_only(f, fg, node, depth=0):
+    """`node` is executed only after an exception handler of `f` ran: it sits in a handler, or
+    under a test that a value is None / false where every None / False definition of that
+    value (apart from the initialisation of a result temporary) is itself error-only - the
+    shape left behind when a try/except that returns a sentinel is extracted into a helper."""
     if fg.enclosing_handlers(node):
+        return True
+    if depth > 3:
+        return False
+
+    def raw(nm):
+        return [n for n in ast.walk(f.node) if isinstance(n, ast.Assign) and any(
+            isinstance(t, ast.Name) and t.id == nm for t in n.targets)]
+    for a in fg.atoms(node):
+        if not ((a[0] == "is" and len(a) > 2 and a[2] is None) or a[0] == "falsy"):
+            continue
+        nm = a[1]
+        if not (isinstance(nm, str) and nm.isidentifier()):
+            continue
+        ds = raw(nm)
+        for _ in range(3):
+            if len(ds) == 1 and isinstance(ds[0].value, ast.Name):
+                nm = ds[0].value.id
+                ds = raw(nm)
+        if nm.startswith("__ret__") and len(ds) > 1:
+            first = min(ds, key=lambda d: d._ord)
+            if isinstance(first.value, ast.Constant) and first.value.value is None:
+                ds = [d for d in ds if d is not first]
+        sentinels = [d for d in ds if isinstance(d.value, ast.Constant)
+                     and d.value.value in (None, False)]
+        if sentinels and all(error_only(f, fg, d, depth + 1) for d in sentinels):
+            return True
+    return False
+
+
+def _on_error_path(f, fg, node):
+    if error_only(f, fg, node):
         return True
     flags = set()
     for g in fg.atoms(node):
@@ -540,7 +630,7 @@ def _on_error_path(f, fg, node):
         defs = local_def(f.node, name)
         true_defs = [d for d in defs if isinstance(d, ast.Assign) and not (
             isinstance(d.value, ast.Constant) and d.value.value is False)]
-        if true_defs and all(fg.enclosing_handlers(d) for d in true_defs):
+        if true_defs and all(error_only(f, fg, d) for d in true_defs):
             return True
     return False
 
@@ -658,8 +748,12 @@ def rule_F7(ctx):
             # alternative of its guard consists only of conditions that hold for status ==
             # succeeded, of the assignment's own preconditions, and of 'status changed'
             pre = fg.atoms(e.node)
+            # what denotes the workflow status here: the assigned attribute and the value
+            tgt_txt = {unparse(t) for t in getattr(e.node, "targets", [])}
+            if isinstance(v, ast.Name):
+                tgt_txt.add(v.id)
             for atoms in expand_alternatives(e.func, fg, fg.atoms(c)):
-                extra = [a for a in atoms if not _holds_for_succeeded(a)]
+                extra = [a for a in atoms if not (a[1] in tgt_txt and _holds_for_succeeded(a))]
                 extra = [a for a in extra if a not in pre and not _is_changed_guard(a)]
                 if not extra:
                     ok = True
